@@ -253,6 +253,22 @@ let run (cmd : string) (a : v) : v =
   | "lin_grad_matrix", L [I rows; I nin; I nout; I hb; go; a] ->
       vmat nout (nin + (if hb <> 0 then 1 else 0))
         (lin_grad_matrix fops (nat_of_int rows) (nat_of_int nin) (hb <> 0) (mat_of go) (mat_of a))
+  | "factor_update", L [prev; alpha; L spec; L ranks] ->
+      (* spec: ["lin_a", nin, has_bias] | ["lin_g", nout, scale|"none"] | ["conv_a", geom, has_bias] | ["conv_g", geom, scale|"none"] *)
+      let sc = function S "none" -> None | v -> Some (getf v) in
+      let rows_of m = nat_of_int (List.length (getl m)) in
+      let (n, one) = (match spec with
+        | [S "lin_a"; I nin; I hb] -> (nin + (if hb <> 0 then 1 else 0), (fun m -> lin_a fops (rows_of m) (nat_of_int nin) (hb <> 0) (mat_of m)))
+        | [S "lin_g"; I nout; s] -> (nout, (fun m -> lin_g fops (rows_of m) (nat_of_int nout) (unscaled fops (sc s) (mat_of m))))
+        | [S "conv_a"; g; I hb] -> let g = geom_of g in
+            (int_of_nat (nfeat g) + (if hb <> 0 then 1 else 0), (fun x -> conv_a fops g (hb <> 0) (t4_of x)))
+        | [S "conv_g"; g; s] -> let g = geom_of g in
+            (int_of_nat g.gO, (fun x -> conv_g fops g (unscaled4 fops (sc s) (t4_of x))))
+        | _ -> failwith "factor spec") in
+      let tabm m = let l = to_list (nat_of_int n) (nat_of_int n) m in of_list fops l in
+      let prev = (match prev with L [S "identity"; _] -> mid fops | p -> mat_of p) in
+      let per_rank = List.map (fun micros -> List.map (fun d -> tabm (one d)) (getl micros)) ranks in
+      vmat n n (factor_update fops (getf alpha) prev per_rank)
   | _ -> failwith ("unknown command or bad argument: " ^ cmd)
 
 let () =
